@@ -278,7 +278,7 @@ def run(ctx):
 
         # ---------------- K2 recursion
         if is_lib and prof == "debug":
-            recursion(ctx, facts, roles, reach, extra, tag)
+            recursion(ctx, facts, roles, reach, extra, tag, ctx.fact_paths.get((cfg, crate, prof)))
 
         # ---------------- K3 boundary
         if crate == "jsonlogic":
@@ -364,7 +364,43 @@ def serde_json_features():
 
 
 # ------------------------------------------------------------------ recursion
-def recursion(ctx, facts, roles, reach, extra, tag):
+def evaluator_sinks(ctx, facts, roles, fact_path):
+    """S1 results for the descent witness of the evaluator cycle.  The provenance analysis joins the call sites of a
+    helper and the paths inside it; when an operator's code was split into private helpers (the flag that guards a parse
+    computed in one, the parse done in another) a sink can stay dirty although no run reaches it with anything but
+    rule text.  The sinks that stay dirty are therefore read once more on the view of the program in which the private
+    helpers of the operators concerned stand at their call sites (rules/inline.py: behaviour-preserving, with jump
+    threading) — one more reading of the same clause on the same program, not a different clause."""
+    s1 = P.analyse(roles)[1]
+    dirty = [s for s, v, how in s1 if v == "dirty"]
+    if not dirty or ctx.inline_set or not fact_path:
+        return s1, ""
+    try:
+        from . import inline
+        from .opfacts import Unit
+        cands = set(inline.candidates(fact_path))
+        helpers = set()
+        roots = set()
+        for s_ in dirty:
+            k = s_.body.key
+            while "::{closure#" in k:
+                k = k.rsplit("::{closure#", 1)[0]
+            roots.add(k)
+        for fk in sorted(roles.op_fns):
+            keys = Unit(roles, fk, extended=True).keys
+            if keys & roots:
+                helpers |= keys & cands
+        if not helpers:
+            return s1, ""
+        vf = inline.load_view(fact_path, sorted(helpers))
+        vs1 = P.analyse(Roles(vf))[1]
+    except Exception as e:          # the view could not be built or read: the reading on the program as written stands
+        ctx.notes.append("helper-inlined view for the evaluator cycle could not be read (%s: %s)" % (type(e).__name__, e))
+        return s1, ""
+    return vs1, " — read on the view with the operators' private helpers %s inlined at their call sites (on the program as written %d sink(s) stayed undecided by the path-insensitive analysis)" % (", ".join(h.split("::", 1)[-1] for h in sorted(helpers)), len(dirty))
+
+
+def recursion(ctx, facts, roles, reach, extra, tag, fact_path=None):
     cg, _ = facts.callgraph()
     nodes = [k for k in reach if facts.body(k) is not None and facts.body(k).kind in ("fn", "closure")]
 
@@ -381,13 +417,13 @@ def recursion(ctx, facts, roles, reach, extra, tag):
         name = ",".join(role_name(roles, facts.body(r)) for r in roots[:4]) + ("…" if len(roots) > 4 else "")
         if cs & evaluator_keys:
             if s1 is None:
-                s1 = P.analyse(roles)[1]
+                s1, view_note = evaluator_sinks(ctx, facts, roles, fact_path)
             dirty = [s for s, v, how in s1 if v == "dirty"]
             # every parser call inside the cycle is an S1 sink by construction; the cycle descends in the rule tree iff they are all clean
             ctx.check(not dirty, "K2.recursion", "evaluator cycle (%d functions, %s)" % (len(cs), tag),
                       "the evaluator recursion re-enters the parser on a value that is not rule text (%s): recursion depth is no longer bounded by the nesting of the rule" % ", ".join(s.ident() for s in dirty[:3]),
                       where=dirty[0].body.where(dirty[0].bi) if dirty else "", fn=dirty[0].body.key if dirty else None, nontrivial=True,
-                      sample={"cycle": "evaluator", "functions": len(cs), "witness": "all %d parser call sites receive rule text only (C04 K1): each nested parse is a strict sub-term of the rule" % len(s1)})
+                      sample={"cycle": "evaluator", "functions": len(cs), "witness": "all %d parser call sites receive rule text only (C04 K1): each nested parse is a strict sub-term of the rule%s" % (len(s1), view_note)})
             # depth is bounded by the nesting of the rule; the *work* is bounded too only if no level evaluates an operand
             # twice (an operand evaluated twice at each of d nested levels costs 2^d evaluations: a hang at depth 64)
             if not getattr(ctx, "_once_done", {}).get(tag):
